@@ -2,8 +2,7 @@
 (* C15: message / state-init / currency / wallet-data serialisers emit a valid *)
 (* block.tlb encoding and never fail for lack of room; the parsers read every  *)
 (* valid encoding back to the same fields.                                     *)
-EXTENDS TraceKit, TonMsg
-Same(a, o) == o = a \/ Has(o, "skip") \/ (Has(a, "dict") /\ a.dict = <<>> /\ Has(o, "none"))
+EXTENDS TraceKit, TonMsg, TlbCompare
 Failed(r) ==
     CASE r.op = "msg_ser" ->
             LET encs == Encodings(r.val) IN
@@ -14,11 +13,7 @@ Failed(r) ==
             IF Has(r.out, "err") THEN {"serialize_raised_" \o r.type}
             ELSE Clause("wrapper_encoding_wrong_" \o r.type, r.out.tree = T!Encode(r.type, r.val))
       [] r.op = "parse" ->
-            IF Has(r, "err") THEN {"parse_raised_" \o r.type}
-            ELSE UNION {IF Same(r.flat[i].a, r.obs[i]) THEN {}
-                        ELSE {"field_wrong_" \o r.type \o "." \o (IF r.flat[i].path = <<>> THEN "root" ELSE r.flat[i].path[Len(r.flat[i].path)])}
-                        : i \in 1..Len(r.flat)}
-                 \cup Clause("consumed_exact_" \o r.type, r.rem.bits = 0 /\ r.rem.refs = 0)
+            ParseFailed(r)
 TInit == KitInit
 TNext == KitNext(Failed)
 =============================================================================
